@@ -31,6 +31,7 @@ def run(prog: Program, rep: Report, tier: str):
     from . import c01_pair
     c01_pair.rule_pair(prog, rep)
     c01_pair.rule_spline_root(prog, rep)
+    c01_pair.rule_planar_inverse(prog, rep)
     from .lints import rule_stable_bijections
     rule_stable_bijections(prog, rep, "C01.stable")
     if tier == "thorough":
